@@ -40,6 +40,7 @@ impl Property for C19 {
             env: None,
             real: None,
             note: String::new(),
+            decoy_in_cwd: false,
         };
         for i in 0..rng.small(0, 2) {
             sc.cmd.push(format!("i{i}"));
@@ -64,7 +65,13 @@ impl Property for C19 {
                         if m > 0 && !sc.input.0.ends_with(b" ") && !sc.input.0.ends_with(b"\n") {
                             sc.input.0.push(b' ');
                         }
-                        sc.input.0.extend_from_slice(if rng.chance(1, 2) { b"'open" } else { b"\"open" });
+                        // ... followed by text, or as the very last byte of the input
+                        sc.input.0.extend_from_slice(match rng.below(4) {
+                            0 => b"'open".as_slice(),
+                            1 => b"\"open",
+                            2 => b"'",
+                            _ => b"\"",
+                        });
                         sc.outcomes = gen_outcomes(rng, m + 1, false);
                     }
                     _ => {
@@ -169,6 +176,8 @@ impl Property for C19 {
                 sc.note = "script".into();
             }
         }
+        // the command is looked up on PATH, never in the current directory
+        sc.decoy_in_cwd = sc.real.is_none() && rng.chance(1, 6);
         let cfg = resolve(&sc.opts);
         let sep = match cfg.delim {
             Some(d) => vec![d],
@@ -232,6 +241,9 @@ impl Property for C19 {
         }
         if sc.real.is_some() {
             rep.probe("real_child_processes");
+        }
+        if sc.decoy_in_cwd && sc.outcomes.iter().take(planned.max(1)).any(|o| matches!(o, Outcome::SpawnErr(e) if *e == libc::ENOENT)) {
+            rep.probe("command_not_found_while_a_file_of_that_name_is_in_the_current_directory");
         }
         let judge = Judge {
             prefix: "C19",
